@@ -165,7 +165,9 @@ func writeClade(n *tree.Node, prev *tree.Node, e *tree.Edge, buf *bytes.Buffer, 
 
 	buf.WriteString(tab + "<clade>\n")
 	if n.Name() != "" {
-		buf.WriteString(fmt.Sprintf("%s<name>%s</name>\n", tab, n.Name()))
+		buf.WriteString(tab + "<name>")
+		xml.EscapeText(buf, []byte(n.Name()))
+		buf.WriteString("</name>\n")
 	}
 	if prev != nil && e != nil {
 		if e.Length() != tree.NIL_LENGTH {
